@@ -143,3 +143,6 @@ pub proof fn lemma_prop_ptrs_step(s: Seq<(VotingProposal, Option<ScriptWitnessTy
     requires 0 <= i < s.len()
     ensures prop_ptrs(s.take(i + 1), tag) == (match s[i].1 { Some(ScriptWitnessType::PlutusScriptWitness(w)) => prop_ptrs(s.take(i), tag).push(with_ptr(w, i as nat, tag)), _ => prop_ptrs(s.take(i), tag) })
 { assert(s.take(i + 1).drop_last() =~= s.take(i)); }
+
+/// the (account, coin) pair of the i-th withdrawal the builder holds
+pub open spec fn wd_pair(w: Seq<(RewardAddress, (Coin, Option<ScriptWitnessType>))>, i: int) -> (RewardAddress, Coin) { (w[i].0, w[i].1.0) }
